@@ -275,7 +275,7 @@ void Interp::run(const Case &c) {
     for (size_t i = 0; i < c.ops.size(); ++i) {
         const Op &op = c.ops[i];
         if (op.code.size() && op.code[0] == 'f' && op.code != "fbuild" && op.code != "fmut" && op.code != "fsub" && op.code != "fsubx") continue;   // file-model ops
-        if (op.code == "poke" || op.code == "field" || op.code == "trunc" || op.code == "truncmeta" || op.code == "bytes" || op.code == "cfg" || op.code == "vendor" || op.code == "sweeptrunc" || op.code == "sweeppoke") continue;
+        if (op.code == "poke" || op.code == "dims" || op.code == "field" || op.code == "trunc" || op.code == "truncmeta" || op.code == "bytes" || op.code == "cfg" || op.code == "vendor" || op.code == "sweeptrunc" || op.code == "sweeppoke") continue;
         if (L) L->before(*this, op, i);
         Outcome out = exec(op);
         ++opsRun;
@@ -367,6 +367,28 @@ Outcome Interp::exec(const Op &op) {
             long long n = op.arg(0); if (n < 0) n = -n;
             p.set(std::vector<int>() = {static_cast<int>(n % 256)});
             obj->parameter(k == "pused" ? "POINT" : "ANALOG", p);
+        }
+        else if (k == "pframes") {
+            // pframes <delta>: the caller edits POINT:FRAMES by hand (stored frames + delta); legal, the header follows the parameter
+            out.mutating = true;
+            ezc3d::ParametersNS::GroupNS::Parameter p(obj->parameters().group("POINT").parameter("FRAMES"));
+            long long n = static_cast<long long>(obj->data().nbFrames()) + op.arg(0); if (n < 0) n = 0; if (n > 32767) n = 32767;
+            p.set(std::vector<int>() = {static_cast<int>(n)});
+            out.note = "POINT:FRAMES=" + std::to_string(n) + " stored=" + std::to_string(obj->data().nbFrames());
+            obj->parameter("POINT", p);
+        }
+        else if (k == "selfparam") {
+            // selfparam <g> <p> <dst>: a REFERENCE to a parameter the object itself holds is handed to c3d::parameter for another (often new) group
+            const auto &PS = obj->parameters();
+            std::vector<size_t> gs; for (size_t g2 = 0; g2 < PS.nbGroups(); ++g2) if (PS.group(g2).nbParameters() > 0) gs.push_back(g2);
+            if (gs.empty()) { out.skipped = true; out.note = "no parameter to hand back"; return out; }
+            const auto &G = PS.group(gs[static_cast<size_t>(op.arg(0) < 0 ? -op.arg(0) : op.arg(0)) % gs.size()]);
+            const auto &P = G.parameter(static_cast<size_t>(op.arg(1) < 0 ? -op.arg(1) : op.arg(1)) % G.nbParameters());
+            long long d = op.arg(2) < 0 ? -op.arg(2) : op.arg(2); if (d < 3) d += 3;       // never into POINT / ANALOG / FORCE_PLATFORM (mandatory names)
+            const std::string dst = groupOf(d);
+            out.mutating = true; out.note = dst;
+            lastSelfParam = takeParam(P);
+            obj->parameter(dst, P);
         }
         else if (k == "param" || k == "paramx") {
             ParamSpec s = specOf(op);
